@@ -535,9 +535,20 @@ var progressNote atomic.Value
 // layersWatched evaluates p.Layers(tier) under a watchdog: building the state space of an
 // explicit-state search executes the code under test, which may loop forever after a change.
 func layersWatched(p *Property, tier string) ([]Layer, string) {
-	type res struct{ ls []Layer }
+	type res struct {
+		ls  []Layer
+		err string
+	}
 	ch := make(chan res, 1)
-	go func() { ch <- res{p.Layers(tier)} }()
+	go func() {
+		defer func() {
+			if r := recover(); r != nil {
+				// building the value sets / the state space executes the code under test
+				ch <- res{nil, fmt.Sprintf("constructing the case space panicked: %v\n%s", r, trimStack(debug.Stack()))}
+			}
+		}()
+		ch <- res{p.Layers(tier), ""}
+	}()
 	limit := 300 * time.Second
 	if v := os.Getenv("VERIF_LAYERS_LIMIT_S"); v != "" {
 		if n, err := strconv.Atoi(v); err == nil {
@@ -550,7 +561,7 @@ func layersWatched(p *Property, tier string) ([]Layer, string) {
 	for {
 		select {
 		case r := <-ch:
-			return r.ls, ""
+			return r.ls, r.err
 		case <-time.After(limit):
 			note, _ := progressNote.Load().(string)
 			if note == last {
